@@ -387,6 +387,7 @@ func H_C11() {
 	excluded := map[string]bool{}
 	nFaults, nExcl := 0, 0
 	hung := false
+	nHung := 0
 	for _, e := range all {
 		if nFaults < vx.Param("MAXF", 2) {
 			if f := vx.Choice("fault", kinds); f != faultNone {
@@ -395,6 +396,7 @@ func H_C11() {
 				nFaults++
 				if f == faultHung {
 					hung = true
+					nHung++
 				}
 				vx.Cover("fault-" + faultNames[f])
 			}
@@ -470,7 +472,12 @@ func H_C11() {
 		}
 	}
 	vx.Assert("C11", okx, "no excluded hash is requested")
-	if hung || slowConsumer {
+	if hung && !slowConsumer && nHung < conc {
+		// fewer never-completing requests than fetch slots: a slot stays free, everything that is reachable without
+		// the hung blocks is loaded before the deadline
+		vx.Assert("C11", sameSet(hashSet(got), want), "exactly the entries reachable through retrievable, non-excluded entries are returned (hung blocks fewer than fetch slots)")
+		vx.Cover("hung-but-a-slot-free")
+	} else if hung || slowConsumer {
 		// a request that never completes holds a fetch slot until the deadline: what is behind the queue at
 		// that moment cannot be loaded in time by any implementation, so only soundness is required here
 		vx.Assert("C11", subset(hashSet(got), want), "only entries reachable through retrievable, non-excluded entries are returned (hung block, timeout)")
